@@ -255,3 +255,63 @@ HARNESSES = [
       bounds=lambda tier: {"scenario": "get(a) miss at 0; put(a,v2) at symbolic ns in [0,1.5 ms]; get(a) at symbolic ns in [0, 6 ms]"},
       outside=["MultiTierCache", "SoftTTLCache hard-TTL bound", "cache_warming", "page_cache"]),
 ]
+
+
+def writeback_overlap(sym, tier):
+    """Write-back CachedStore under capacity pressure with two overlapping puts to different keys (the
+    second starts at a symbolic instant inside or after the first one's latency window): after both
+    completed and a flush, the backing store holds both writes, and reads see them."""
+    r = Result()
+    cap = 1 + sym.choice("capacity_minus_1", 2)
+    pol = [LRUEviction(), FIFOEviction(), LFUEviction()][sym.choice("policy", 3)]
+    store = KVStore("kv", read_latency=0.001, write_latency=0.002)
+    cs = CachedStore("cache", backing_store=store, cache_capacity=cap, eviction_policy=pol, write_through=False, cache_read_latency=0.0005)
+    second_at = sym.int("second_put_start_ns", 0, 1_000_000)
+    v1, v2 = sym.int("v1", 1, 9), sym.int("v2", 11, 19)
+    res = {}
+
+    def w1(self):
+        yield from cs.put("k1", v1)
+        res["w1_done"] = self.now.nanoseconds
+
+    def w2(self):
+        b = self.now.nanoseconds
+        yield from cs.put("k2", v2)
+        res["w2"] = (b, self.now.nanoseconds)
+
+    def checker(self):
+        got1 = yield from cs.get("k1")
+        got2 = yield from cs.get("k2")
+        n = yield from cs.flush()
+        res["reads"] = (got1, got2)
+
+    cl = [_Client("w1", w1), _Client("w2", w2), _Client("chk", checker)]
+    sim = Simulation(entities=[store, cs] + cl)
+    mon = Monitor(sim, cap=60)
+    sim.schedule([mk_event(0, "go", cl[0]), mk_event(second_at, "go", cl[1]), mk_event(50_000_000, "go", cl[2])])
+    try:
+        sim.run()
+    except SpinDetected:
+        pass
+    mon.judge(r, "writeback_overlap")
+    if res.get("reads") != (v1, v2):
+        r.bad("read_after_completed_write_returns_it", {"reads": res.get("reads"), "expected": [v1, v2], "capacity": cap})
+    if store.get_sync("k1") != v1 or store.get_sync("k2") != v2:
+        r.bad("write_back_data_reaches_the_backing_store", {"store": [store.get_sync("k1"), store.get_sync("k2")], "expected": [v1, v2], "capacity": cap,
+                                                           "dirty": cs.get_dirty_keys(), "cached": cs.get_cached_keys()})
+    if not set(cs.get_dirty_keys()) <= set(cs.get_cached_keys()):
+        r.bad("dirty_keys_are_cached", cs.get_dirty_keys(), cs.get_cached_keys())
+    if res.get("w2") and res["w2"][0] < res.get("w1_done", 0):
+        r.wit.add("puts_overlap")
+    if cs.stats.evictions:
+        r.wit.add("eviction")
+    r.obs = {"reads": res.get("reads"), "capacity": cap}
+    return r
+
+
+HARNESSES.append(
+    H(name="c16_writeback_overlap", fn=writeback_overlap, shape="S", budget=lambda tier: 900.0,
+      cubes=lambda tier: [{"capacity_minus_1": c, "policy": p} for c in range(2) for p in range(3)],
+      require=lambda tier: ["puts_overlap", "eviction"], classify=overlap_classify,
+      functions=["CachedStore.put (write-back)/_cache_put/flush/get", "KVStore.put_sync/get"],
+      bounds=lambda tier: {"puts": "put(k1) at 0, put(k2) at a symbolic ns in [0, 1 ms] (cache write latency 0.5 ms)", "capacity": [1, 2], "policies": ["lru", "fifo", "lfu"]}))
